@@ -267,6 +267,26 @@ where
             return Err(OptRcode::SERVFAIL);
         };
 
+        // https://datatracker.ietf.org/doc/html/rfc1995#section-2
+        // 2. Brief Description of the Protocol
+        //   "If an IXFR query with the same or newer version number than that
+        //    of the server is received, it is replied to with a single SOA
+        //    record of the server's current version"
+        //
+        // There are no diffs for such a client, but that must not make us
+        // fall back to AXFR below: respond_to_ixfr_query() handles it.
+        let ixfr_client_is_current =
+            match (ixfr_query_serial, zone_soa_answer.content()) {
+                (Some(query_serial), AnswerContent::Data(zone_soa_rrset)) => {
+                    matches!(
+                        zone_soa_rrset.data().first(),
+                        Some(ZoneRecordData::Soa(soa))
+                            if query_serial >= soa.serial()
+                    )
+                }
+                _ => false,
+            };
+
         match q.qtype() {
             Rtype::AXFR if req.transport_ctx().is_udp() => {
                 // https://datatracker.ietf.org/doc/html/rfc5936#section-4.2
@@ -293,7 +313,9 @@ where
                 )))))
             }
 
-            Rtype::AXFR | Rtype::IXFR if xfr_data.diffs().is_empty() => {
+            Rtype::AXFR | Rtype::IXFR
+                if xfr_data.diffs().is_empty() && !ixfr_client_is_current =>
+            {
                 if q.qtype() == Rtype::IXFR && xfr_data.diffs().is_empty() {
                     // https://datatracker.ietf.org/doc/html/rfc1995#section-4
                     // 4. Response Format
